@@ -37,6 +37,8 @@ type staleScn struct {
 	MayFault bool
 	// Ctl is the sender of the control transaction (0: account 8).
 	Ctl int
+	// Lead is the number of empty blocks that arrive before the scenario's block.
+	Lead int
 }
 
 // buildHook is build with a hook that changes the hashable content after the
@@ -271,6 +273,14 @@ var _ = opcode.RET
 
 func (e *env) runStale() map[string]any {
 	scns := staleScenarios()
+	if e.thor {
+		// deep bound: the pool also lives through an unrelated empty block before the scenario's block arrives
+		for _, s := range staleScenarios() {
+			s.Lead = 1
+			s.Name += ",after-an-empty-block"
+			scns = append(scns, s)
+		}
+	}
 	e.r.Parallel(len(scns), func(i int) {
 		sub := newFindings()
 		e.staleCase(&scns[i], sub)
@@ -295,7 +305,7 @@ func (e *env) staleCase(s *staleScn, out *findings) {
 	fail := func(what, note string) {
 		r := *rec
 		r.Note = note
-		out.add(fmt.Sprintf("proposable:after-block:%s:%s", what, s.Name), &r)
+		out.add(fmt.Sprintf("after-block:%s:%s", what, s.Name), &r)
 	}
 	defer func() {
 		if p := recover(); p != nil {
@@ -341,12 +351,25 @@ func (e *env) staleCase(s *staleScn, out *findings) {
 		}
 		rec.Pre = append(rec.Pre, fmt.Sprintf("%x", tx.Bytes()))
 	}
+	var wires [][]byte
+	for i := 0; i < s.Lead; i++ {
+		b, err := M.AddBlock()
+		if err != nil {
+			fail("harness-block", err.Error())
+			return
+		}
+		wire, _ := chainx.BlockBytes(b)
+		wires = append(wires, wire)
+		if err := P.AddBytes(wire); err != nil {
+			fail("arriving-block-rejected-by-the-pooling-node", err.Error())
+			return
+		}
+	}
 	txs, err := s.Block(M, e.scOf(st).World.Attach(M), pooled)
 	if err != nil {
 		fail("harness-block", err.Error())
 		return
 	}
-	var wires [][]byte
 	for i := 0; i <= s.Empties; i++ {
 		var b, err = M.AddBlock(txs...)
 		if err != nil {
@@ -399,7 +422,13 @@ func (e *env) staleCase(s *staleScn, out *findings) {
 }
 
 func (e *env) replayStale(c *caseRec) string {
+	all := staleScenarios()
 	for _, s := range staleScenarios() {
+		s.Lead = 1
+		s.Name += ",after-an-empty-block"
+		all = append(all, s)
+	}
+	for _, s := range all {
 		if s.Name != c.Rule {
 			continue
 		}
